@@ -938,4 +938,467 @@ def _strip_table_ids(v, renames):
   return v
 
 
-PROFILES = [C13(), C14(), C39(), C28(), C23(), C16()]
+# -- C19 ------------------------------------------------------------------------------------------
+
+INVALID_FORMULAS = [
+  "1 +", "(", ")", "[1, 2", "{'a': 1", "'unterminated", '"unterminated', "'''never closed", "$", "$1abc",
+  "$a +", "def", "class X", "if $a:\nreturn 1", "  indented\nnot", "\tx = 1\n  y = 2\nx", "return return",
+  "rec = 5\nrec", "$a = 3", "1 +* 2", "x = 5", "x = $a\ny = x", "x = = 1", "for x in", "while True", "@", "~",
+  "\x00", "\x00$a", "é = 1\né +", "$a $b", "import", "from x import", "print 'x'", "a b c",
+  "'a' 'b' +", "0x", "1e", "09", "$a..b", "$a.1", "[x for x]", "{**}", "*", "**$a", "x := 1", "(x := )",
+  "try:\n  1", "else: 2", "\\", "$a \\ 5", "\"\"\"$a", "# only a comment", "", "   ", "\n\n", "pass",
+  "return", "break", "continue", "yield 1", "await x", "async def f(): pass", "nonlocal x", "global x\nx",
+  "del rec", "rec.a = 1", "$nosuchcolumn", "$a.nosuch.attr", "nosuchname", "1/0", "[][1]", "{}['k']",
+  "int('x')", "None + 1", "raise ValueError('v')", "assert False", "(lambda: 1/0)()",
+  "".join(chr(c) for c in range(1, 40)), "\ufeff1", "１＋１", "“quoted”", "a\u2028b", "\udc80" if False else "\u202e1",
+]
+
+VALID_TEMPLATES = [
+  "${a} * 2", "rec.{a} + ${a}", "# $nosuch in a comment\n${a}", "'$nosuch in a string' + str(${a})",
+  '"""multi\nline $nosuch"""  + "!"', "x = ${a} or 0\ny = x + 1\ny * 2", "return ${a}",
+  "if ${a}:\n  return 'pos'\nelse:\n  return 'zero'", "(${a} +\n ${a})", "${a} #$nosuch",
+  "def g(v):\n  return v * 2\ng(${a} or 1)", "[x for x in range(int(${a} or 0) % 4)]",
+  "'a' if ${a} else '$b'", "${s}.upper() + '$'", "len(${s}) + ${a}", "${a}\n", "  ${a}  ", "${a};${a} + 1",
+  "x = ${a}\nif x:\n  x += 1\nx", "'''$a'''", "r'\\$a' + ${s}", "${a} if True else $nosuch",
+  "try:\n  v = 1 / ${a}\nexcept ZeroDivisionError:\n  v = -1\nv", "for i in range(3):\n  pass\ni + ${a}",
+  "${a} and $b", "not ${a}", "-${a}", "${a} ** 2", "(${a}, ${s})", "{'k': ${a}}['k']", "${a}.real",
+  "str(${a}) + '# not a comment $x'", "lambda_ = lambda v: v + 1\nlambda_(${a})",
+  "'%s-%s' % (${a}, ${s})", "${a} //  2   # trailing", "None", "True", "'x'", "1.5", "[]", "${a} == $b",
+  "${a}\n# trailing comment", "\n\n${a}", "x = (\n  ${a}\n)\nx", "return (${a},\n  $b)",
+  "if ${a} > 1:\n  r = 'big'\nelif ${a} == 1:\n  r = 'one'\nelse:\n  r = 'small'\nr",
+  "with open.__class__ and __import__('contextlib').nullcontext(${a}) as v:\n  w = v\nw",
+  "class K:\n  z = 3\nK.z + ${a}", "import math\nmath.floor(${b} or 0)", "from math import floor\nfloor(${b} or 0) + ${a}",
+]
+
+
+def dollar_translate(text):
+  """Independent `$name -> rec.name` translation outside strings and comments (a small lexer,
+  not codebuilder.py)."""
+  out = []
+  i, n = 0, len(text)
+  while i < n:
+    ch = text[i]
+    if ch == "#":
+      j = text.find("\n", i)
+      j = n if j < 0 else j
+      out.append(text[i:j])
+      i = j
+      continue
+    if ch in "\"'":
+      q = text[i:i + 3] if text[i:i + 3] in ('"""', "'''") else ch
+      j = i + len(q)
+      while j < n:
+        if text[j] == "\\":
+          j += 2
+          continue
+        if text.startswith(q, j):
+          j += len(q)
+          break
+        if len(q) == 1 and text[j] == "\n":
+          break
+        j += 1
+      out.append(text[i:j])
+      i = j
+      continue
+    if ch == "$" and i + 1 < n and (text[i + 1].isalpha() or text[i + 1] == "_"):
+      j = i + 1
+      while j < n and (text[j].isalnum() or text[j] == "_"):
+        j += 1
+      out.append("rec." + text[i + 1:j])
+      i = j
+      continue
+    out.append(ch)
+    i += 1
+  return "".join(out)
+
+
+def reference_eval(text, row):
+  """Evaluate a formula text against a row (dict) with Python itself: `$x` -> rec.x outside
+  strings/comments, last expression statement returned. Returns ('v', value) or ('e', class name)."""
+  src = dollar_translate(text)
+  tree = ast.parse(src)
+  if tree.body and isinstance(tree.body[-1], ast.Expr):
+    tree.body[-1] = ast.copy_location(ast.Return(tree.body[-1].value), tree.body[-1])
+  fn = ast.FunctionDef(name="_f", args=ast.arguments(posonlyargs=[], args=[ast.arg("rec"), ast.arg("table")],
+                                                     kwonlyargs=[], kw_defaults=[], defaults=[]),
+                       body=tree.body or [ast.Pass()], decorator_list=[], type_params=[])
+  mod = ast.Module(body=[fn], type_ignores=[])
+  ast.fix_missing_locations(mod)
+  ns = {}
+  exec(compile(mod, "<ref>", "exec"), ns)      # pylint: disable=exec-used
+  class Rec(object):
+    pass
+  rec = Rec()
+  for k, v in row.items():
+    setattr(rec, k, v)
+  try:
+    return ("v", ns["_f"](rec, None))
+  except Exception as e:     # pylint: disable=broad-except
+    return ("e", type(e).__name__)
+
+
+class C19(HistoryProfile):
+  prop = "C19"
+  name = "c19"
+  technique = ("deterministic simulation with an injected fault of kind 'poisoned user code': hostile "
+               "formula texts written into a running document (shared generated module); other columns "
+               "must not move and the document must keep working (from-scratch recheck); valid texts are "
+               "compared with an independent $-translation evaluated by Python")
+  max_events = 26
+  p_undo = 0.05
+  p_redo_after_undo = 0.5
+
+  def base_weights(self):
+    # record edits only: the schema of P and Q stays as the reference evaluator assumes
+    return {"add_records": 10, "update_records": 20, "remove_records": 5}
+
+  def config(self, rng, tier):
+    cfg = super(C19, self).config(rng, tier)
+    cfg["weights"] = self.base_weights()
+    cfg["alt_text_p"] = 0.0
+    cfg["p_poison"] = rng.choice([0.3, 0.5])
+    cfg["p_valid"] = rng.choice([0.2, 0.3])
+    return cfg
+
+  def first_events(self, sim, g, cfg):
+    return [{"k": "open"},
+            {"k": "bundle", "ops": ["poison_schema"], "a": [
+              ["AddTable", "P", [{"id": "a", "type": "Int", "isFormula": False},
+                                 {"id": "b", "type": "Numeric", "isFormula": False},
+                                 {"id": "s", "type": "Text", "isFormula": False},
+                                 {"id": "h1", "type": "Any", "isFormula": True, "formula": "($a or 0) + ($b or 0)"},
+                                 {"id": "h2", "type": "Any", "isFormula": True,
+                                  "formula": "len(P.lookupRecords(a=$a))"}]],
+              ["BulkAddRecord", "P", [None] * 4, {"a": [1, 0, 2, 1], "b": [0.5, 2.0, 0.0, -1.5],
+                                                  "s": ["x", "", "Ab", "é"]}],
+              ["AddTable", "Q", [{"id": "k", "type": "Int", "isFormula": False},
+                                 {"id": "h3", "type": "Any", "isFormula": True,
+                                  "formula": "[r.id for r in P.lookupRecords(a=$k)]"}]],
+              ["BulkAddRecord", "Q", [None] * 2, {"k": [1, 5]}]]}]
+
+  def next_event(self, sim, g, cfg, st, i):
+    rng = g.rng
+    dv = DocView(sim.sigma)
+    r = rng.random()
+    if "P" not in dv.tables:
+      return None
+    if r < cfg["p_poison"]:
+      text = rng.choice(INVALID_FORMULAS)
+      if rng.random() < 0.15:
+        text = "".join(chr(rng.choice([rng.randint(1, 127), rng.randint(128, 0x2fff)])) for _ in range(rng.randint(1, 30)))
+      return self._write(rng, g, dv, text, "poison")
+    r -= cfg["p_poison"]
+    if r < cfg["p_valid"]:
+      tpl = rng.choice(VALID_TEMPLATES)
+      text = tpl.replace("{a}", rng.choice(["a", "b"])).replace("{b}", "b").replace("{s}", "s")
+      return self._write(rng, g, dv, text, "valid")
+    return super(C19, self).next_event(sim, g, cfg, st, i)
+
+  def _write(self, rng, g, dv, text, kind):
+    t = dv.tables["P"]
+    mine = [c for c in t.cols.values() if c.colId.startswith("z")]
+    tid = rng.choice(["P", "P", "Q"]) if "Q" in dv.tables else "P"
+    if mine and rng.random() < 0.4 and tid == "P":
+      c = rng.choice(mine)
+      return {"k": "bundle", "ops": [kind], "a": [["ModifyColumn", "P", c.colId, {"formula": text}]]}
+    return {"k": "bundle", "ops": [kind],
+            "a": [["AddColumn", tid, g.new_col_id("z"), {"type": "Any", "isFormula": True, "formula": text}]]}
+
+  def check(self, sim, out, st):
+    ev = out.ev
+    ops = ev.get("ops", ())
+    if ev["k"] != "bundle" or not (set(ops) & {"poison", "valid"}) or out.pre is None:
+      if out.ok and ev["k"] in ("bundle", "undo", "redo") and st.get("poisoned"):
+        st["n"] = st.get("n", 0) + 1
+        if st["n"] % 4 == 0:
+          check_from_scratch(sim, self.prop)
+          sim.count("oracle.keeps_working")
+      return
+    a = ev["a"][0]
+    tid, cid, text = a[1], a[2], a[3]["formula"]
+    if tid not in out.pre:
+      return
+    if not out.ok:
+      if a[0] == "ModifyColumn" and cid not in DocView(out.pre).tables[tid].cols:
+        return
+      # The engine refused the text (e.g. `await x`, NUL bytes: the generated module does not
+      # compile and no syntax-error stub is produced). The document "keeps working" only if the
+      # refusal left no trace; the following events show whether it still accepts edits.
+      d = eq.diff(out.pre, out.post)
+      if d:
+        raise vio(sim, "refused-formula-left-trace", "writing formula %r into %s.%s raised %s and "
+                  "changed: %s" % (text, tid, cid, out.error, "; ".join(d[:3])))
+      sim.count("probe.formula_text_refused")
+      st["poisoned"] = True
+      return
+    st["poisoned"] = True
+    pre, post = out.pre, sim.sigma
+    # every other column is untouched
+    d = eq.diff(pre, post, ignore_cols={tid: [cid], "_grist_Tables_column": ["formula", "parentPos"],
+                                        "_grist_Views_section_field": ["parentPos"]},
+                tables=[t for t in pre if not t.startswith("_grist_")])
+    d = [x for x in d if "columns differ" not in x or ("['%s']" % cid) not in x]
+    if d:
+      raise vio(sim, "formula-not-isolated", "writing %r into %s.%s changed other cells: %s" % (
+        text, tid, cid, "; ".join(d[:3])))
+    sim.count("oracle.isolated")
+    if "valid" in ops:
+      rows = eq.rows_of(post[tid])
+      for r, rec in rows.items():
+        row = {k: v for k, v in rec.items() if k in ("a", "b", "s", "k")}
+        row["id"] = r
+        try:
+          exp = reference_eval(text, row)
+        except SyntaxError:
+          continue
+        got = rec.get(cid)
+        if exp[0] == "e":
+          if not (isinstance(got, eq.Err) and got.cls == exp[1]):
+            raise vio(sim, "formula-meaning", "%s[%s].%s = %r, Python evaluates %r to a raised %s" % (
+              tid, r, cid, got, text, exp[1]))
+        else:
+          import objtypes
+          try:
+            enc = objtypes.encode_object(exp[1])
+          except Exception:    # pylint: disable=broad-except
+            continue
+          if isinstance(got, eq.Err) or eq.norm(eq.decode(enc)) != eq.norm(got):
+            raise vio(sim, "formula-meaning", "%s[%s].%s = %r, Python evaluates %r to %r" % (
+              tid, r, cid, got, text, exp[1]))
+        sim.count("oracle.meaning")
+    sim.count("oracle.nontrivial")
+    sim.shapes.add("%s/%s" % (ops[0], text[:40]))
+
+  def finish(self, sim, st):
+    check_from_scratch(sim, self.prop)
+
+  def rule_text(self):
+    return ("one case = one seeded run that writes hostile (%d fixed + random) or valid-but-tricky "
+            "(%d templates) formula texts into a healthy document and keeps editing; distinct = "
+            "distinct (kind, text) pairs written and checked" % (len(INVALID_FORMULAS), len(VALID_TEMPLATES)))
+
+
+# -- C15 ------------------------------------------------------------------------------------------
+
+TRIGGER_FORMULA = "(value if isinstance(value, (int, float)) else 0) + 1"
+
+
+class C15(HistoryProfile):
+  prop = "C15"
+  name = "c15"
+  technique = ("deterministic simulation: trigger-formula columns instrumented as recalculation "
+               "counters, reconfigured and exercised through seeded histories (adds with/without "
+               "explicit values, updates to deps / non-deps / the column itself, equal-value writes, "
+               "schema changes to deps, undo/redo); three-valued reference model (must / must-not / may)")
+  max_events = 34
+  DATA = ["d1", "d2", "txt"]
+
+  def config(self, rng, tier):
+    return {"max_events": rng.randint(8, self.max_events), "p_undo": 0.07}
+
+  def first_events(self, sim, g, cfg):
+    return [{"k": "open"},
+            {"k": "bundle", "ops": ["trigger_schema"], "a": [
+              ["AddTable", "G", [{"id": "d1", "type": "Int", "isFormula": False},
+                                 {"id": "d2", "type": "Int", "isFormula": False},
+                                 {"id": "txt", "type": "Text", "isFormula": False}]],
+              ["BulkAddRecord", "G", [None] * 3, {"d1": [1, 2, 3], "d2": [0, 0, 5], "txt": ["a", "b", ""]}]]}]
+
+  def _tcols(self, dv):
+    t = dv.tables.get("G")
+    return [c for c in t.cols.values() if c.is_trigger and c.formula == TRIGGER_FORMULA] if t else []
+
+  def next_event(self, sim, g, cfg, st, i):
+    rng = g.rng
+    dv = DocView(sim.sigma)
+    t = dv.tables.get("G")
+    if t is None:
+      return None
+    tcols = self._tcols(dv)
+    datacols = [c for c in t.cols.values() if not c.formula and not c.isFormula and c.colId != "manualSort"]
+    r = rng.random()
+    if r < cfg["p_undo"] and sim.ptr > 1:
+      if rng.random() < 0.6:
+        st.setdefault("pending", []).append({"k": "redo"})
+      return {"k": "undo"}
+    if st.get("pending"):
+      return st["pending"].pop(0)
+    if (r < 0.18 and len(tcols) < 4) or not tcols:
+      when = rng.choice([0, 0, 1, 2])
+      return {"k": "bundle", "ops": ["add_trigger"], "a": [
+        ["AddColumn", "G", g.new_col_id("t"), {"type": "Numeric", "isFormula": False,
+                                               "formula": TRIGGER_FORMULA, "recalcWhen": when}]]}
+    if r < 0.30:
+      c = rng.choice(tcols)
+      pool = datacols + tcols
+      deps = sorted(x.ref for x in rng.sample(pool, rng.randint(0, min(3, len(pool)))))
+      upd = rng.choice([{"recalcDeps": (["L"] + deps) if deps else None},
+                        {"recalcWhen": rng.choice([0, 1, 2])},
+                        {"recalcWhen": rng.choice([0, 1, 2]), "recalcDeps": (["L"] + deps) if deps else None}])
+      return {"k": "bundle", "ops": ["reconfigure"], "a": [["ModifyColumn", "G", c.colId, upd]]}
+    if r < 0.37 and datacols:
+      c = rng.choice(datacols)
+      if rng.random() < 0.6:
+        return {"k": "bundle", "ops": ["dep_rename"], "a": [["RenameColumn", "G", c.colId, g.new_col_id("r")]]}
+      new = {"Int": "Numeric", "Numeric": "Int", "Text": "Choice", "Choice": "Text"}.get(c.pure, "Text")
+      return {"k": "bundle", "ops": ["dep_type"], "a": [["ModifyColumn", "G", c.colId, {"type": new}]]}
+    rows = t.row_ids
+    def val(c):
+      return rng.choice([0, 1, 2, 3, 5]) if c.pure in ("Int", "Numeric") else rng.choice(["", "a", "b"])
+    if r < 0.55 or not rows:
+      n = rng.choice([1, 1, 2])
+      cols = rng.sample(datacols, rng.randint(0, len(datacols)))
+      expl = [c for c in tcols if rng.random() < 0.3]
+      vals = {c.colId: [val(c) for _ in range(n)] for c in cols}
+      vals.update({c.colId: [rng.choice([50, 60, 0]) for _ in range(n)] for c in expl})
+      if n == 1:
+        return {"k": "bundle", "ops": ["add"], "a": [["AddRecord", "G", None, {k: v[0] for k, v in vals.items()}]]}
+      return {"k": "bundle", "ops": ["add"], "a": [["BulkAddRecord", "G", [None] * n, vals]]}
+    if r < 0.93:
+      n = rng.choice([1, 1, 2, 3])
+      rs = rng.sample(rows, min(n, len(rows)))
+      cols = rng.sample(datacols, rng.randint(1, min(2, len(datacols))))
+      cur = eq.raw_rows_of(sim.sigma["G"])
+      vals = {}
+      for c in cols:
+        # half of the writes keep the current value (equal-value writes must not fire)
+        vals[c.colId] = [cur[x][c.colId] if rng.random() < 0.4 else val(c) for x in rs]
+      if tcols and rng.random() < 0.25:
+        c = rng.choice(tcols)
+        vals[c.colId] = [rng.choice([70, 80, cur[x][c.colId]]) for x in rs]
+      if len(rs) == 1:
+        return {"k": "bundle", "ops": ["update"], "a": [["UpdateRecord", "G", rs[0], {k: v[0] for k, v in vals.items()}]]}
+      return {"k": "bundle", "ops": ["update"], "a": [["BulkUpdateRecord", "G", rs, vals]]}
+    return {"k": "bundle", "ops": ["remove"], "a": [["RemoveRecord", "G", rng.choice(rows)]]}
+
+  def check(self, sim, out, st):
+    ev = out.ev
+    k = ev["k"]
+    if out.pre is None or "G" not in (out.pre or {}) or "G" not in sim.sigma:
+      return
+    if k in ("undo", "redo") and out.ok:
+      # undo / redo restore stored values; they are log replay, not user-requested updates
+      e = out.extra.get("entry")
+      want = e.pre if k == "undo" else e.post
+      d = eq.diff(want, sim.sigma, tables=["G"])
+      if d:
+        raise vio(sim, "trigger-undo-redo", "%s changed trigger cells: %s" % (k, "; ".join(d[:3])))
+      sim.count("oracle.undo_redo")
+      return
+    if k != "bundle" or not out.ok or len(ev.get("a", [])) != 1:
+      return
+    op = ev.get("ops", ["?"])[0]
+    a = ev["a"][0]
+    dvp, dvq = DocView(out.pre), DocView(sim.sigma)
+    pre = eq.raw_rows_of(out.pre["G"])
+    post = eq.raw_rows_of(sim.sigma["G"])
+    tcols_pre = {c.ref: c for c in self._tcols(dvp)}
+    tcols_post = {c.ref: c for c in self._tcols(dvq)}
+    checked = 0
+    for ref, cq in tcols_post.items():
+      cp = tcols_pre.get(ref)
+      if cp is None:
+        continue            # the column was added by this bundle: baseline only
+      when = cp.recalcWhen or 0
+      deps = set(cp.recalcDeps)
+      dep_ids = set()
+      for d in deps:
+        dc = dvp.col_by_ref.get(d)
+        if dc is not None:
+          dep_ids.add(dc.colId)
+      self_dep = (when == 0 and ref in deps)
+      for r in post:
+        now = post[r][cq.colId]
+        if r not in pre:
+          # a new record
+          if op != "add":
+            continue
+          idx = 0 if a[0] == "AddRecord" else None
+          vals = a[3]
+          explicit = cp.colId in vals
+          if explicit:
+            v = vals[cp.colId] if a[0] == "AddRecord" else vals[cp.colId][self._new_index(out, r)]
+            allowed = {float(v)} if not self_dep else {float(v), float(v) + 1}
+            verdict = "explicit value must be kept"
+          elif when == 1:
+            allowed = {0.0}
+            verdict = "NEVER: a new record keeps the default"
+          else:
+            allowed = {1.0}
+            verdict = "a new record without a supplied value gets the formula's value"
+          if not self._in(now, allowed):
+            raise vio(sim, "trigger-on-add", "G[%s].%s = %r after %s; %s (allowed %s; recalcWhen=%s deps=%s)" % (
+              r, cq.colId, now, json.dumps(a, default=repr)[:200], verdict, sorted(allowed), when, sorted(dep_ids)))
+          checked += 1
+          continue
+        before = pre[r][cp.colId]
+        if not isinstance(before, (int, float)) or isinstance(before, bool):
+          continue
+        fired = {float(before) + 1}
+        kept = {float(before)}
+        if op in ("dep_rename", "dep_type", "remove", "add"):
+          allowed, verdict = kept, "schema changes / other rows never trigger recalculation"
+        elif op == "reconfigure":
+          if a[2] == cp.colId:
+            allowed, verdict = kept | fired, "reconfigured column: unconstrained"
+          else:
+            allowed, verdict = kept, "reconfiguring another column must not fire this one"
+        elif op == "update":
+          rows = a[2] if isinstance(a[2], list) else [a[2]]
+          if r not in rows:
+            allowed, verdict = kept, "row not addressed by the update"
+          else:
+            i = rows.index(r)
+            vals = {c: (v[i] if isinstance(a[2], list) else v) for c, v in a[3].items()}
+            written = set(vals)
+            changed = {c for c, v in vals.items() if c in pre[r] and eq.norm(pre[r][c]) != eq.norm(
+              float(v) if (isinstance(v, int) and not isinstance(v, bool) and isinstance(pre[r][c], float)) else v)}
+            if cp.colId in written:
+              v = float(vals[cp.colId])
+              if self_dep or (when == 2 and changed):
+                allowed, verdict = {v, v + 1}, "explicit value on a self-dependent / manual-update column"
+              else:
+                allowed, verdict = {v}, "a value set explicitly in the same user action is kept"
+            elif when == 1:
+              allowed, verdict = kept, "NEVER"
+            elif when == 2:
+              if changed:
+                allowed, verdict = fired, "MANUAL_UPDATES: a user update changed this row"
+              else:
+                allowed, verdict = kept, "MANUAL_UPDATES: nothing changed in this row"
+            else:
+              if dep_ids & changed:
+                allowed, verdict = fired, "DEFAULT: a dependency cell of this row changed value"
+              elif not (dep_ids & written):
+                allowed, verdict = kept, "DEFAULT: no dependency was written in this row"
+              else:
+                allowed, verdict = kept | fired, "DEFAULT: dependency written with an equal value"
+        else:
+          continue
+        if not self._in(now, allowed):
+          raise vio(sim, "trigger-model", "G[%s].%s went %r -> %r after %s; %s (allowed %s; recalcWhen=%s deps=%s)" % (
+            r, cq.colId, before, now, json.dumps(a, default=repr)[:220], verdict, sorted(allowed), when, sorted(dep_ids)))
+        checked += 1
+        sim.count("probe.verdict_" + ("must" if allowed == fired else "mustnot" if len(allowed) == 1 else "may"))
+    sim.count("oracle.trigger_cells", checked)
+    if checked:
+      sim.count("oracle.nontrivial")
+      sim.shapes.add("%s/%s" % (op, sorted((c.recalcWhen or 0, len(c.recalcDeps)) for c in tcols_pre.values())))
+
+  @staticmethod
+  def _new_index(out, r):
+    ret = out.ret[0]
+    ids = ret if isinstance(ret, list) else [ret]
+    return ids.index(r)
+
+  @staticmethod
+  def _in(v, allowed):
+    return isinstance(v, (int, float)) and not isinstance(v, bool) and float(v) in allowed
+
+  def rule_text(self):
+    return ("one case = one seeded history over a table with up to 4 instrumented trigger columns; "
+            "non-trivial = the three-valued model was evaluated on at least one trigger cell; distinct = "
+            "distinct (operation kind, multiset of (recalcWhen, #deps) configurations)")
+
+
+PROFILES = [C13(), C14(), C39(), C28(), C23(), C16(), C19(), C15()]
